@@ -8,5 +8,5 @@ Cd "ocaml".
 Extraction "model.ml" x_int_read x_int_read_base x_int_write x_int_abs x_int_of_string x_int_rt x_int_rtb x_int_seq
   x_rat_read x_rat_write x_rat_rt x_rat_norm x_rat_seq x_num_get x_elt_write x_elt_read x_elt_read_word x_elt_rt
   x_ru_write x_ru_read x_ru_rt x_ri_write x_ri_read x_ri_rt x_poly_write x_poly_read x_poly_parse x_poly_degfmt
-  x_int_seqd x_rat_seqd x_elt_seqd x_ru_seqd x_ri_seqd x_poly_seqd x_poly_wr x_ru_write_buf x_poly_seqd0 x_poly_wr0.
+  x_int_seqd x_rat_seqd x_elt_seqd x_ru_seqd x_ri_seqd x_poly_seqd x_poly_wr x_ru_write_buf x_poly_seqd0 x_poly_wr0 x_int_read_nocxx x_int_seqd_nocxx.
 Cd "..".
